@@ -280,22 +280,26 @@ class Cid(object):
         self._location = errors.Location(cid_path, has_cell=True)
         if self._cid_path is None:
             self._cid_path = cid_path
-        for row in rows:
-            if row:
-                row_type = row[0].lower().strip()
-                row_data = (row[1:] + [""] * 6)[:6]
-                if row_type == "d":
-                    self.add_data_format_row(row_data)
-                elif row_type == "f":
-                    self.add_field_format_row(row_data)
-                elif row_type == "c":
-                    self.add_check_row(row_data)
-                elif row_type != "":
-                    # Raise error when value is not supported.
-                    raise errors.InterfaceError(
-                        'CID row type is "%s" but must be empty or one of: C, D, or F' % row_type, self._location
-                    )
-            self._location.advance_line()
+        try:
+            for row in rows:
+                if row:
+                    row_type = row[0].lower().strip()
+                    row_data = (row[1:] + [""] * 6)[:6]
+                    if row_type == "d":
+                        self.add_data_format_row(row_data)
+                    elif row_type == "f":
+                        self.add_field_format_row(row_data)
+                    elif row_type == "c":
+                        self.add_check_row(row_data)
+                    elif row_type != "":
+                        # Raise error when value is not supported.
+                        raise errors.InterfaceError(
+                            'CID row type is "%s" but must be empty or one of: C, D, or F' % row_type, self._location
+                        )
+                self._location.advance_line()
+        except errors.DataFormatError as error:
+            # The file holding the CID is broken, which is a problem of the CID, not of any data.
+            raise errors.InterfaceError("cannot read CID: %s" % error.message, error.location)
         if self.data_format is None:
             raise errors.InterfaceError("data format must be specified", self._location)
         try:
